@@ -189,6 +189,8 @@ type coro struct {
 	done   bool
 	depth  int
 	start  func()
+	// waitLock is the lock this thread is parked on (nil if it is not waiting for a lock)
+	waitLock *value
 }
 
 type coroMsg struct {
@@ -294,6 +296,42 @@ func (ex *exec) park(why string) {
 	}
 }
 
+// yieldPoint is a preemption point (verifrt.Yield): if another logical thread could run now, whether the running
+// thread goes on or lets the others run first is a decision, so both schedules are explored. Threads parked on a
+// lock that is still held are not runnable and create no decision.
+func (ex *exec) yieldPoint() {
+	if ex.scheduling && ex.cur == nil {
+		return
+	}
+	runnable := false
+	for _, c := range ex.coros {
+		if c.done || c == ex.cur {
+			continue
+		}
+		if c.waitLock != nil && ex.findLock(c.waitLock) != nil {
+			continue
+		}
+		runnable = true
+	}
+	if !runnable {
+		return
+	}
+	opts := []*Term{ex.tt.Bool(true), ex.tt.Bool(true)}
+	k := ex.decide("sched", opts)
+	ex.schedNondet = true
+	if k == 0 {
+		return
+	}
+	if c := ex.cur; c != nil {
+		c.yield <- coroMsg{kind: 0}
+		if ok := <-c.resume; !ok {
+			panic(coroKilled{})
+		}
+		return
+	}
+	ex.runPending()
+}
+
 // killCoros unwinds every logical thread still alive at the end of a path.
 func (ex *exec) killCoros() {
 	for _, c := range ex.coros {
@@ -315,7 +353,8 @@ type heldLock struct {
 	write bool
 	count int
 	site  string
-	owner *coro // logical thread that took it (nil = main)
+	fn    string // function that took it
+	owner *coro  // logical thread that took it (nil = main)
 }
 
 func (ex *exec) findLock(p *value) *heldLock {
@@ -344,11 +383,21 @@ func (ex *exec) lockAcquire(fr *frame, p *value, write bool) {
 	h := ex.findLock(p)
 	for h != nil && h.owner != ex.cur && (write || h.write) {
 		// held by another logical thread: wait for it
+		if ex.cur != nil {
+			ex.cur.waitLock = p
+		}
 		ex.park("lock held by another logical thread")
+		if ex.cur != nil {
+			ex.cur.waitLock = nil
+		}
 		h = ex.findLock(p)
 	}
 	if h == nil {
-		ex.held = append(ex.held, &heldLock{ptr: p, write: write, count: 1, site: ex.lockSite(fr), owner: ex.cur})
+		fnName := ""
+		if fr != nil {
+			fnName = fr.fn.String()
+		}
+		ex.held = append(ex.held, &heldLock{ptr: p, write: write, count: 1, site: ex.lockSite(fr), fn: fnName, owner: ex.cur})
 		return
 	}
 	if !write && !h.write {
@@ -364,7 +413,7 @@ func (ex *exec) lockAcquire(fr *frame, p *value, write bool) {
 		if fr != nil {
 			fnName = fr.fn.String()
 		}
-		ex.recordFailure("deadlock", "deadlock:"+fnName+":relock of lock taken at "+h.site, "lock acquired while already held by the same thread (taken at "+h.site+")", site, nil, model)
+		ex.recordFailure("deadlock", "deadlock:"+fnName+":relock of lock taken in "+h.fn, "lock acquired while already held by the same thread (taken at "+h.site+")", site, nil, model)
 	}
 	panic(engineAbort{"done", "deadlock"})
 }
